@@ -12,6 +12,13 @@ CLAIMED = {
  },
 }
 
+CLAIMED["C16"] = {
+  "text": "Machine-checked proof by complete case analysis (decide over the whole regenerated DETAILS table, lifted to all Int for unknown numbers) that the model of emulate_default_handler yields the kernel's default outcome for every known signal in both calling contexts, errors for unknown ones, and that names are the platform's; tied to /repo by regenerating the table from signal_details.rs each run and by exhaustive paired forked probes (native default vs real emulate_default_handler) for every number 1..64 and out-of-range numbers, in normal, in-handler and register_conditional_default contexts.",
+  "design_ref": "DESIGN.md section 6 C16",
+  "note": "Trusted: Lean kernel, axioms as audited, extractor (DETAILS table, platform numbers from system headers via gcc), forked probes; kernelDefault is an environment table (Linux signal(7)) validated against this kernel on each run; control flow of the Term path (restore default, unblock, raise, abort) is modelled by hand and tied by the probes in both contexts; glibc-internal 32/33 not probed.",
+  "technique": "Lean 4 proof by exhaustive decision over the regenerated table + exhaustive forked differential probes",
+}
+
 NOT_YET = {}
 ALL = ["C%02d" % i for i in range(1, 19)]
 
